@@ -290,6 +290,36 @@ def apply_op(w, op):
             w.targets.update(fan + [dd])
             w.yobjs.append(cls)
         return "class %s(YAMLObject) tag=%r loader=%r" % (cls.__name__, tag, [getattr(c, "__name__", c) for c in fan])
+    if kind == "use":
+        # a class is used (load / dump) between registrations: whatever it caches must not outlive a later registration
+        _, i, _k = op
+        allc = w.classes()
+        cls = allc[i % len(allc)]
+        try:
+            if cls in w.loaders:
+                yaml.compose("k0: v\nk1: [a, b]\n", Loader=cls)
+                yaml.load("- !t0 x\n- zz0\n", Loader=cls)
+            else:
+                yaml.dump({"k0": "v", "k1": ["a", P0()]}, Dumper=cls)
+        except Exception:
+            pass
+        return "use %s" % cls.__name__
+    if kind == "yamlobject_pair":
+        # yaml_loader = [A, B] with B an (unregistered) subclass of A, A first: both are explicit targets
+        _, i, k = op
+        A = w.loaders[i % len(w.loaders)]
+        B = type("Sub%d" % w.fresh(), (A,), {})
+        w.loaders.append(B)
+        w.model.new_class(B)
+        D = type("PrivD%d" % w.fresh(), (yaml.SafeDumper,), {})
+        w.model.new_class(D)
+        tag = ["!w0", "!w1"][k % 2]
+        cls = type("W%d" % w.fresh(), (yaml.YAMLObject,), {"yaml_tag": tag, "yaml_loader": [A, B] if k % 3 else [B, A], "yaml_dumper": D})
+        for c in (A, B):
+            w.model.register(c, "ctor", tag, cls.from_yaml)
+        w.model.register(D, "repr", cls, cls.to_yaml)
+        w.targets.update([A, B])
+        return "class %s(YAMLObject) tag=%r loader=[%s, %s]" % (cls.__name__, tag, A.__name__, B.__name__)
     if kind == "yamlobject_sub":
         # a subclass of an earlier YAMLObject class that declares only its tag: loader and dumper are inherited
         _, bi, k = op
@@ -451,6 +481,28 @@ def check_behaviour(w, failures, step, desc):
                 failures.append(Failure("behaviour:implicit-resolver", "after step %d (%s): %s resolves %r to %r, the rule predicts %r" % (
                     step, desc, cls.__name__, text, got, want)))
                 return evals
+    if w.used_paths:
+        nodes = yaml.nodes
+        T = "tag:yaml.org,2002:"
+        for cls in w.loaders:
+            table = w.model.effective(cls, "path") or {}
+            evals += 1
+            try:
+                root = yaml.compose("k0: v\nk1: [a, b]\n", Loader=cls)
+            except Exception as e:
+                failures.append(Failure("probe-compose-raised:%s" % exc_key(e), "path probe on %s: %s" % (cls.__name__, exc_msg(e))))
+                return evals
+            implicit = w.model.effective(cls, "implicit") or {}
+            want_root = table.get(((), nodes.MappingNode), T + "map")
+            want_k0 = table.get((((None, "k0"),), nodes.ScalarNode), T + "str")
+            want_item = table.get((((None, "k1"), (None, 0)), None), T + "str")
+            got_root = root.tag
+            got_k0 = root.value[0][1].tag
+            got_item = root.value[1][1].value[0].tag
+            if (got_root, got_k0, got_item) != (want_root, want_k0, want_item):
+                failures.append(Failure("behaviour:path-resolver", "after step %d (%s): %s resolves (root, k0, k1[0]) to %r, the rule predicts %r" % (
+                    step, desc, cls.__name__, (got_root, got_k0, got_item), (want_root, want_k0, want_item))))
+                return evals
     return evals
 
 
@@ -513,6 +565,9 @@ def op_strategy():
         st.tuples(st.just("mod"), st.sampled_from(["ctor", "mctor", "repr", "mrepr", "implicit"]), k, opt, opt),
         st.tuples(st.just("yamlobject"), spec, i, k),
         st.tuples(st.just("yamlobject_sub"), i, k),
+        st.tuples(st.just("yamlobject_pair"), i, k),
+        st.tuples(st.just("use"), i, k),
+        st.tuples(st.just("use"), i, k),
     )
 
 
@@ -525,7 +580,7 @@ def enum_short(shard, nshards, tier):
     import itertools
     alpha = [("subclass", 0, 1, None), ("subclass", 0, 15, None), ("subclass", 1, 1, None), ("ctor", 1, 0), ("ctor", 15, 0), ("mctor", 15, 0),
              ("repr", 1, 0), ("repr", 8, 0), ("mrepr", 8, 0), ("implicit", 1, 0, 0), ("implicit", 15, 1, 1), ("implicit", 17, 0, 2),
-             ("mod", "ctor", 0, None, None), ("mod", "implicit", 0, None, None), ("yamlobject", ("one", 15), 8, 1), ("path", 15, 0), ("yamlobject_sub", 0, 0)]
+             ("mod", "ctor", 0, None, None), ("mod", "implicit", 0, None, None), ("yamlobject", ("one", 15), 8, 1), ("path", 15, 0), ("yamlobject_sub", 0, 0), ("use", 15, 0), ("use", 16, 0), ("yamlobject_pair", 1, 1)]
     n = 0
     for length in range(1, (3 if tier == "thorough" else 2) + 1):
         for h in itertools.product(alpha, repeat=length):
@@ -540,4 +595,4 @@ def arms(tier):
 
 
 REQUIRED_CLASSES = ["op:subclass", "op:ctor", "op:mctor", "op:repr", "op:mrepr", "op:implicit", "op:path", "op:mod_ctor", "op:mod_implicit",
-                    "op:yamlobject", "op:yamlobject_sub", "target-with-base-and-derived", "diamond"]
+                    "op:yamlobject", "op:yamlobject_sub", "op:yamlobject_pair", "op:use", "target-with-base-and-derived", "diamond"]
